@@ -459,7 +459,7 @@ func (e *Explorer) merge(m *Machine) {
 	r.SolverErrors += st.Errors
 	r.SolverS += st.Time.Seconds()
 	m.solver.stats = SolverStats{}
-	if len(r.Samples) < 3 && !m.pathDead && m.abortErr == nil && m.endReason == "returned" && m.pos > 0 {
+	if len(r.Samples) < 4 && !m.pathDead && m.abortErr == nil && m.endReason == "returned" && m.pos > 0 {
 		// a sample: the decision vector and a witness for the inputs of this path
 		if m.solver.dead == false {
 			// witness from the solver for this path
